@@ -415,6 +415,51 @@ def r6(ctx):
         ctx.emit('C03-R6', True, BARCODEPARSER, cls, f'{n_attr} instance attributes assigned by methods of {CLS}: none is read before it is assigned in the same call', key='stale-instance-state', nontrivial=n_attr > 0)
 
 
+@rule('C03', 'C03-R7', 'every line of a whitelist file becomes a whitelist entry: the loops that register barcodes walk the open file itself (or all of '
+                       'its lines), never a slice of the lines (a whitelist without a final newline would lose its last barcode)')
+def r7(ctx):
+    f = ctx.fn(BARCODEPARSER, f'{CLS}.parse_barcode_file')
+    handles = {it.optional_vars.id for w in walk_no_nested(f) if isinstance(w, ast.With) for it in w.items if isinstance(it.optional_vars, ast.Name)}
+    loops = [l for l in walk_no_nested(f) if isinstance(l, ast.For) and any(isinstance(c, ast.Call) and isinstance(c.func, ast.Attribute) and c.func.attr == 'addBarcode' for c in ast.walk(l))]
+    ctx.need('C03-R7', len(loops), 1, 'loops registering barcodes in parse_barcode_file')
+
+    def whole(e, depth=0):
+        """'all' (every line), or ('slice', text) / ('unknown', text)"""
+        if depth > 6:
+            return ('unknown', src(e))
+        if isinstance(e, ast.Name):
+            if e.id in handles:
+                return 'all'
+            ds = [a.value for a in walk_no_nested(f) if isinstance(a, ast.Assign) and len(a.targets) == 1 and src(a.targets[0]) == e.id]
+            if len(ds) == 1:
+                return whole(ds[0], depth + 1)
+            return ('unknown', src(e))
+        if isinstance(e, ast.Call):
+            fn = last_name(dotted(e.func) or '')
+            if fn in ('enumerate', 'iter', 'list', 'tuple') and e.args:
+                return whole(e.args[0], depth + 1)
+            if isinstance(e.func, ast.Attribute) and fn in ('readlines', 'splitlines') and not e.args:
+                inner = e.func.value
+                if fn == 'splitlines' and isinstance(inner, ast.Call) and isinstance(inner.func, ast.Attribute) and inner.func.attr == 'read':
+                    inner = inner.func.value
+                return whole(inner, depth + 1)
+        if isinstance(e, (ast.ListComp, ast.GeneratorExp)) and len(e.generators) == 1 and not e.generators[0].ifs:
+            return whole(e.generators[0].iter, depth + 1)
+        if isinstance(e, ast.Subscript) and isinstance(e.slice, ast.Slice):
+            return ('slice', src(e))
+        return ('unknown', src(e))
+    for l in loops:
+        w = whole(l.iter)
+        if w == 'all':
+            ctx.emit('C03-R7', True, BARCODEPARSER, l, f'the registering loop walks every line of the file (`{src(l.iter)[:60]}`)', key='all-lines-parsed')
+        elif w[0] == 'slice':
+            ctx.emit('C03-R7', False, BARCODEPARSER, l, f'the registering loop walks `{w[1][:70]}`: a slice of the lines - the line cut off is a whitelist entry when the file has no final newline '
+                     f'(or no header line): that barcode is not assigned to itself and its neighbours are assigned to another barcode', key='all-lines-parsed',
+                     what='parse_barcode_file drops a line of the whitelist file')
+        else:
+            ctx.emit('C03-R7', False, BARCODEPARSER, l, f'cannot tell that `{w[1][:70]}` holds every line of the file', key='all-lines-parsed', undecided=True)
+
+
 META = {
     'text': ('Decides clause-level necessary conditions: registration of a corrected barcode is reachable only when the two smallest candidate '
              'distances differ (tie test enumerated over all abstract candidate lists), and index / origin / distance come from the minimal candidate; '
@@ -424,3 +469,7 @@ META = {
     'technique': 'static analysis: comparison-predicate enumeration over abstract candidate lists, provenance checks of registration arguments, who-may-call rule for the lazy loader',
     'design_ref': 'DESIGN.md section 5, C03',
 }
+
+
+from . import shared as _shared
+_shared.register('C03', 'C03')
